@@ -318,7 +318,7 @@ def dict_store_keys(func: ast.FunctionDef, target_text: str) -> set:
                 out.add(n.args[0].value)
     return out
 
-def inline_private_helpers(f: "FuncInfo", depth: int = 3, methods: bool = False, keep=frozenset(), only=None) -> ast.FunctionDef:
+def inline_private_helpers(f: "FuncInfo", depth: int = 3, methods: bool = False, keep=frozenset(), only=None, closures=frozenset()) -> ast.FunctionDef:
     """A copy of ``f``'s definition in which calls to private module-level helper functions of the same
     module (``_name(...)`` used as a statement or as the whole right-hand side of an assignment) are
     replaced by the helper's body: parameters are bound to the argument expressions, the helper's own
@@ -329,9 +329,24 @@ def inline_private_helpers(f: "FuncInfo", depth: int = 3, methods: bool = False,
     import copy as _copy
 
     counter = [0]
+    local_closures: dict = {}
     funcs = f.module.functions
     # names already used in the caller: an inlined local is renamed only when it would collide
-    caller_names = {n.id for n in ast.walk(f.node) if isinstance(n, ast.Name)} | {a.arg for a in ast.walk(f.node) if isinstance(a, ast.arg)}
+    def _names_outside_closures(root):
+        out = set()
+        stack = [root]
+        while stack:
+            n = stack.pop()
+            if isinstance(n, ast.FunctionDef) and n is not root and n.name in closures:
+                continue  # the locals of a nested function that is itself inlined are not the caller's
+            if isinstance(n, ast.Name):
+                out.add(n.id)
+            elif isinstance(n, ast.arg):
+                out.add(n.arg)
+            stack.extend(ast.iter_child_nodes(n))
+        return out
+
+    caller_names = _names_outside_closures(f.node)
 
     def ends(stmts):
         """The statement list always leaves (return / raise) at its end."""
@@ -366,19 +381,40 @@ def inline_private_helpers(f: "FuncInfo", depth: int = 3, methods: bool = False,
                 return False
         return True
 
-    def eligible(g):
-        if g is None or not g.name.startswith("_") or g.name.startswith("__") or g is f or g.is_property or g.is_abstract or g.cache_deps is not None or g.name in keep:
+    class _Closure:
+        """A nested function of ``f`` presented like a FuncInfo."""
+
+        cls = None
+        is_property = False
+        is_abstract = False
+        cache_deps = None
+
+        def __init__(self, node):
+            self.node = node
+            self.name = node.name
+
+        def body_without_docstring(self):
+            b = self.node.body
+            if b and isinstance(b[0], ast.Expr) and isinstance(b[0].value, ast.Constant) and isinstance(b[0].value.value, str):
+                return b[1:]
+            return b
+
+    def eligible(g, tail=False):
+        if g is None or g is f or g.is_property or g.is_abstract or g.cache_deps is not None or g.name in keep:
             return False
-        if only is not None and g.name not in only:
-            return False
+        if not isinstance(g, _Closure):
+            if not g.name.startswith("_") or g.name.startswith("__"):
+                return False
+            if only is not None and g.name not in only:
+                return False
         body = g.body_without_docstring()
         if not body:
             return False
         for st in body:
             for n in ast.walk(st):
-                if isinstance(n, (ast.FunctionDef, ast.AsyncFunctionDef, ast.Lambda, ast.Yield, ast.YieldFrom)):
+                if isinstance(n, (ast.FunctionDef, ast.AsyncFunctionDef, ast.Lambda, ast.Yield, ast.YieldFrom, ast.Nonlocal, ast.Global)):
                     return False
-        if not returns_only_in_ifs(body):
+        if not tail and not returns_only_in_ifs(body):
             return False
         a = g.node.args
         return not (a.vararg or a.kwarg)
@@ -421,7 +457,7 @@ def inline_private_helpers(f: "FuncInfo", depth: int = 3, methods: bool = False,
             out.append(st)
         return out, False
 
-    def expand(g, call, targets, level):
+    def expand(g, call, targets, level, tail=False):
         counter[0] += 1
         pre = f"_h{counter[0]}_"
         a = g.node.args
@@ -460,6 +496,8 @@ def inline_private_helpers(f: "FuncInfo", depth: int = 3, methods: bool = False,
             arg = binds[prm]
             uses = sum(1 for st in body for n in ast.walk(st) if isinstance(n, ast.Name) and n.id == prm and isinstance(n.ctx, ast.Load))
             simple = isinstance(arg, (ast.Name, ast.Constant)) or (isinstance(arg, ast.Attribute) and isinstance(arg.value, ast.Name))
+            if tail and isinstance(arg, ast.Name) and arg.id == prm:
+                continue  # the caller's own variable of the same name: it is dead after a tail call, the helper may re-bind it
             if prm in stored or (not simple and uses > 1):
                 tmp = pre + prm
                 out.append(ast.Assign(targets=[ast.Name(id=tmp, ctx=ast.Store())], value=_copy.deepcopy(arg)))
@@ -470,7 +508,7 @@ def inline_private_helpers(f: "FuncInfo", depth: int = 3, methods: bool = False,
         direct = {}
         last = body[-1] if body else None
         early = any(isinstance(n, ast.Return) for st in body[:-1] for n in ast.walk(st))
-        if not early and isinstance(last, ast.Return) and last.value is not None and targets is not None and len(targets) == 1:
+        if not tail and not early and isinstance(last, ast.Return) and last.value is not None and targets is not None and len(targets) == 1:
             rv, tg = last.value, targets[0]
             pairs = []
             if isinstance(rv, ast.Name) and isinstance(tg, ast.Name):
@@ -497,12 +535,18 @@ def inline_private_helpers(f: "FuncInfo", depth: int = 3, methods: bool = False,
 
         body = [Ren().visit(st) for st in body]
         caller_names.update(stored)  # a second inlined copy of the same helper must not share them
-        if any(isinstance(n, ast.Return) for st in body[:-1] for n in ast.walk(st)):
+        if tail:
+            # the call was the operand of a `return`: the helper's own returns leave the caller directly
+            if not ends(body):
+                body.append(ast.Return(value=ast.Constant(value=None)))
+        elif any(isinstance(n, ast.Return) for st in body[:-1] for n in ast.walk(st)):
             body, _all = single_exit(body, targets)
             if targets is not None and not _all:
                 body.append(ast.Assign(targets=_copy.deepcopy(targets), value=ast.Constant(value=None)))
             targets = None
-        if body and isinstance(body[-1], ast.Return):
+        if tail:
+            pass
+        elif body and isinstance(body[-1], ast.Return):
             ret = body.pop()
             if targets is not None and ret.value is not None:
                 body.append(ast.Assign(targets=_copy.deepcopy(targets), value=ret.value))
@@ -522,13 +566,15 @@ def inline_private_helpers(f: "FuncInfo", depth: int = 3, methods: bool = False,
                     n.end_col_offset = getattr(call, "end_col_offset", 0)
         return process(out, level + 1)
 
-    def helper_call(e):
-        if isinstance(e, ast.Call) and isinstance(e.func, ast.Name) and eligible(funcs.get(e.func.id)):
+    def helper_call(e, tail=False):
+        if isinstance(e, ast.Call) and isinstance(e.func, ast.Name) and e.func.id in local_closures and eligible(local_closures[e.func.id], tail):
+            return local_closures[e.func.id]
+        if isinstance(e, ast.Call) and isinstance(e.func, ast.Name) and e.func.id not in local_closures and eligible(funcs.get(e.func.id), tail):
             return funcs[e.func.id]
         # private helper method of the function's own class, called on self
         if methods and isinstance(e, ast.Call) and isinstance(e.func, ast.Attribute) and isinstance(e.func.value, ast.Name) and e.func.value.id == "self" and f.cls is not None:
             g = f.cls.resolve(e.func.attr)
-            if g is not None and g.cls is not None and eligible(g):
+            if g is not None and g.cls is not None and eligible(g, tail):
                 return g
         return None
 
@@ -541,6 +587,12 @@ def inline_private_helpers(f: "FuncInfo", depth: int = 3, methods: bool = False,
                     rep = expand(helper_call(st.value), st.value, None, level)
                 elif isinstance(st, ast.Assign) and helper_call(st.value):
                     rep = expand(helper_call(st.value), st.value, st.targets, level)
+                elif isinstance(st, ast.Return) and st.value is not None and helper_call(st.value, tail=True):
+                    g_t = helper_call(st.value, tail=True)
+                    body_t = g_t.body_without_docstring()
+                    # a single `return e` helper is handled at expression level; splice anything larger
+                    if not (len(body_t) == 1 and isinstance(body_t[0], ast.Return)):
+                        rep = expand(g_t, st.value, None, level, tail=True)
             if rep is not None:
                 out.extend(rep)
                 continue
@@ -606,8 +658,20 @@ def inline_private_helpers(f: "FuncInfo", depth: int = 3, methods: bool = False,
         return T().visit(tree)
 
     node = _copy.deepcopy(f.node)
+    local_closures.update({n.name: _Closure(n) for n in ast.walk(node) if isinstance(n, ast.FunctionDef) and n is not node and n.name in closures})
     node.body = process(node.body, 0)
     node = inline_expr_calls(node)
+    if local_closures:
+        # a nested function that is no longer referenced has been absorbed into its call sites
+        loads = {n.id for n in ast.walk(node) if isinstance(n, ast.Name) and isinstance(n.ctx, ast.Load)}
+
+        class Drop(ast.NodeTransformer):
+            def visit_FunctionDef(self, n):  # noqa: N802
+                if n is not node and n.name in local_closures and n.name not in loads:
+                    return None
+                return self.generic_visit(n)
+
+        node = Drop().visit(node)
     return ast.fix_missing_locations(node)
 
 def execution_condition(func: ast.AST, stmt: ast.stmt, stop_at=(ast.For, ast.While, ast.FunctionDef)):
@@ -760,6 +824,634 @@ def canonical_returns(func: ast.FunctionDef) -> ast.FunctionDef:
     node.body = doc + (process(node.body[len(doc):], {}) or [ast.Pass()])
     return ast.fix_missing_locations(node)
 
+def expand_self_aliases(func: ast.FunctionDef) -> ast.FunctionDef:
+    """``func`` with every local alias of a pure attribute chain on ``self`` (``system = self.system``,
+    bound exactly once at the top level, the chain never stored to in the function, the name not
+    shadowed by a nested parameter) replaced by the chain, and the binding removed.  Reading the
+    attribute at each use instead of once is the same value under those conditions."""
+    import copy as _copy
+
+    def pure_chain(e):
+        while isinstance(e, ast.Attribute):
+            e = e.value
+        return isinstance(e, ast.Name) and e.id == "self"
+
+    defs = {k: v for k, v in single_assignment_locals(func).items() if isinstance(v, ast.Attribute) and pure_chain(v)}
+    # assignment expressions binding such a chain, when they are the only binding of the name
+    params = {a.arg for a in func.args.posonlyargs + func.args.args + func.args.kwonlyargs}
+    store_counts: dict[str, int] = {}
+    for n in ast.walk(func):
+        if isinstance(n, ast.Name) and isinstance(n.ctx, ast.Store):
+            store_counts[n.id] = store_counts.get(n.id, 0) + 1
+    walrus = {}
+    for n in ast.walk(func):
+        if isinstance(n, ast.NamedExpr) and isinstance(n.value, ast.Attribute) and pure_chain(n.value) and store_counts.get(n.target.id) == 1 and n.target.id not in params:
+            walrus[n.target.id] = n.value
+    defs.update(walrus)
+    if not defs:
+        return func
+    stored, shadow = set(), set()
+    for n in ast.walk(func):
+        tg = []
+        if isinstance(n, ast.Assign):
+            tg = n.targets
+        elif isinstance(n, (ast.AugAssign, ast.AnnAssign)):
+            tg = [n.target]
+        elif isinstance(n, ast.Delete):
+            tg = n.targets
+        for t in tg:
+            for x in ast.walk(t):
+                if isinstance(x, ast.Attribute) and pure_chain(x):
+                    stored.add(norm(x))
+        if isinstance(n, ast.Call) and isinstance(n.func, ast.Name) and n.func.id in ("setattr", "delattr"):
+            stored.add("*")
+        if isinstance(n, (ast.FunctionDef, ast.Lambda)) and n is not func:
+            a = n.args
+            shadow |= {x.arg for x in a.posonlyargs + a.args + a.kwonlyargs} | ({a.vararg.arg} if a.vararg else set()) | ({a.kwarg.arg} if a.kwarg else set())
+    ok = {}
+    for name, chain in defs.items():
+        txt = norm(chain)
+        if "*" in stored or name in shadow or any(txt == st or txt.startswith(st + ".") or st.startswith(txt + ".") for st in stored):
+            continue
+        ok[name] = chain
+    if not ok:
+        return func
+
+    class Sub(ast.NodeTransformer):
+        def visit_Name(self, n):  # noqa: N802
+            if isinstance(n.ctx, ast.Load) and n.id in ok:
+                return ast.copy_location(_copy.deepcopy(ok[n.id]), n)
+            return n
+
+        def visit_Assign(self, n):  # noqa: N802
+            if len(n.targets) == 1 and isinstance(n.targets[0], ast.Name) and n.targets[0].id in ok:
+                return None
+            return self.generic_visit(n)
+
+        def visit_NamedExpr(self, n):  # noqa: N802
+            if n.target.id in ok and n.target.id in walrus:
+                return ast.copy_location(_copy.deepcopy(ok[n.target.id]), n)
+            return self.generic_visit(n)
+
+    new = Sub().visit(_copy.deepcopy(func))
+    if not new.body:
+        new.body = [ast.Pass()]
+    return ast.fix_missing_locations(new)
+
+
+def unroll_method_tuple_loops(func: ast.FunctionDef) -> ast.FunctionDef:
+    """``for f in (self.a, self.b, ...): <body>`` (the tuple given literally or through a local bound
+    once to the literal; elements pure attribute chains on ``self``; no break / continue / else; the
+    loop variable not read after the loop) replaced by the bodies in order with ``f`` substituted.
+    Dispatching the same statements through a loop over bound methods is the same computation."""
+    import copy as _copy
+
+    def pure_chain(e):
+        while isinstance(e, ast.Attribute):
+            e = e.value
+        return isinstance(e, ast.Name) and e.id == "self"
+
+    defs = single_assignment_locals(func)
+    changed = False
+    used_tables = set()
+
+    def items_of(it):
+        if isinstance(it, ast.Name) and it.id in defs:
+            used_tables.add(it.id)
+            it = defs[it.id]
+        if isinstance(it, (ast.Tuple, ast.List)) and it.elts and all(isinstance(e, ast.Attribute) and pure_chain(e) for e in it.elts):
+            return it.elts
+        return None
+
+    def rewrite(stmts, after_names):
+        nonlocal changed
+        out = []
+        for i, st in enumerate(stmts):
+            for fld in ("body", "orelse", "finalbody"):
+                if isinstance(getattr(st, fld, None), list) and not isinstance(st, (ast.FunctionDef, ast.ClassDef)):
+                    setattr(st, fld, rewrite(getattr(st, fld), after_names))
+            if isinstance(st, ast.Try):
+                for h in st.handlers:
+                    h.body = rewrite(h.body, after_names)
+            if isinstance(st, ast.For) and not st.orelse and isinstance(st.target, ast.Name) and not any(isinstance(n, (ast.Break, ast.Continue)) for n in ast.walk(st)):
+                before = set(used_tables)
+                items = items_of(st.iter)
+                later = {n.id for x in stmts[i + 1 :] for n in ast.walk(x) if isinstance(n, ast.Name) and isinstance(n.ctx, ast.Load)} | after_names
+                rebinds = any(isinstance(n, ast.Name) and n.id == st.target.id and isinstance(n.ctx, ast.Store) for b in st.body for n in ast.walk(b))
+                if items is not None and st.target.id not in later and not rebinds:
+                    for it in items:
+                        class Sub(ast.NodeTransformer):
+                            def visit_Name(self, n, it=it):  # noqa: N802
+                                if isinstance(n.ctx, ast.Load) and n.id == st.target.id:
+                                    return ast.copy_location(_copy.deepcopy(it), n)
+                                return n
+
+                        for b in st.body:
+                            nb = Sub().visit(_copy.deepcopy(b))
+                            for n in ast.walk(nb):
+                                if hasattr(n, "lineno"):
+                                    n.lineno = st.lineno
+                                    n.end_lineno = st.lineno
+                            out.append(nb)
+                    changed = True
+                    continue
+                used_tables.clear()
+                used_tables.update(before)
+            out.append(st)
+        return out
+
+    new = _copy.deepcopy(func)
+    new.body = rewrite(new.body, set())
+    if not changed:
+        return func
+    # drop the table bindings that are no longer read
+    loads = {n.id for n in ast.walk(new) if isinstance(n, ast.Name) and isinstance(n.ctx, ast.Load)}
+    new.body = [st for st in new.body if not (isinstance(st, ast.Assign) and len(st.targets) == 1 and isinstance(st.targets[0], ast.Name) and st.targets[0].id in used_tables and st.targets[0].id not in loads)]
+    return ast.fix_missing_locations(new)
+
+
+_REDUCE_OPS = {"operator.matmul": ast.MatMult, "operator.add": ast.Add, "operator.mul": ast.Mult, "matmul": ast.MatMult, "add": ast.Add, "mul": ast.Mult, "operator.sub": ast.Sub}
+
+
+def desugar_reduce(func: ast.FunctionDef) -> ast.FunctionDef:
+    """``return reduce(operator.OP, seq, init)`` / ``x = reduce(operator.OP, seq, init)`` written as the
+    accumulation loop it abbreviates (``acc = init; for item in seq: acc = acc OP item``)."""
+    import copy as _copy
+
+    changed = False
+
+    def match(e):
+        if isinstance(e, ast.Call) and norm(e.func) in ("reduce", "functools.reduce") and len(e.args) == 3 and not e.keywords and norm(e.args[0]) in _REDUCE_OPS:
+            return _REDUCE_OPS[norm(e.args[0])], e.args[1], e.args[2]
+        return None
+
+    def rewrite(stmts):
+        nonlocal changed
+        out = []
+        for st in stmts:
+            for fld in ("body", "orelse", "finalbody"):
+                if isinstance(getattr(st, fld, None), list) and not isinstance(st, (ast.FunctionDef, ast.ClassDef)):
+                    setattr(st, fld, rewrite(getattr(st, fld)))
+            m = None
+            if isinstance(st, ast.Return) and st.value is not None:
+                m = match(st.value)
+            elif isinstance(st, ast.Assign) and len(st.targets) == 1 and isinstance(st.targets[0], ast.Name):
+                m = match(st.value)
+            if m is None:
+                out.append(st)
+                continue
+            op, seq, init = m
+            acc = st.targets[0].id if isinstance(st, ast.Assign) else "_reduce_acc"
+            item = "_reduce_item"
+            new = [
+                ast.Assign(targets=[ast.Name(id=acc, ctx=ast.Store())], value=init),
+                ast.For(target=ast.Name(id=item, ctx=ast.Store()), iter=seq, body=[ast.Assign(targets=[ast.Name(id=acc, ctx=ast.Store())], value=ast.BinOp(left=ast.Name(id=acc, ctx=ast.Load()), op=op(), right=ast.Name(id=item, ctx=ast.Load())))], orelse=[]),
+            ]
+            if isinstance(st, ast.Return):
+                new.append(ast.Return(value=ast.Name(id=acc, ctx=ast.Load())))
+            for x in new:
+                ast.copy_location(x, st)
+                for n in ast.walk(x):
+                    if not hasattr(n, "lineno"):
+                        ast.copy_location(n, st)
+            out.extend(ast.fix_missing_locations(x) for x in new)
+            changed = True
+        return out
+
+    new = _copy.deepcopy(func)
+    new.body = rewrite(new.body)
+    return new if changed else func
+
+
+def _subst_exception_tuples(func: ast.FunctionDef, table: dict) -> ast.FunctionDef:
+    """``except NAME:`` with NAME a module-level constant tuple of classes -> ``except (A, B):``."""
+    import copy as _copy
+
+    if not table or not any(isinstance(n, ast.ExceptHandler) and isinstance(n.type, ast.Name) and n.type.id in table for n in ast.walk(func)):
+        return func
+    # the name must not be re-bound locally
+    if any(isinstance(n, ast.Name) and isinstance(n.ctx, ast.Store) and n.id in table for n in ast.walk(func)):
+        return func
+    new = _copy.deepcopy(func)
+    for n in ast.walk(new):
+        if isinstance(n, ast.ExceptHandler) and isinstance(n.type, ast.Name) and n.type.id in table:
+            n.type = ast.copy_location(_copy.deepcopy(table[n.type.id]), n.type)
+    return ast.fix_missing_locations(new)
+
+
+def expand_named_conditions(func: ast.FunctionDef, keep=frozenset()) -> ast.FunctionDef:
+    """A local bound exactly once to a boolean test (comparison / and / or / not over names, attributes
+    and constants, no calls) whose operands are not re-bound between the binding and its uses in the
+    same block is replaced by the test, and the binding removed: `first = i == 0; if first or c:` is
+    `if i == 0 or c:`."""
+    import copy as _copy
+
+    store_counts: dict[str, int] = {}
+    for n in ast.walk(func):
+        if isinstance(n, ast.Name) and isinstance(n.ctx, ast.Store):
+            store_counts[n.id] = store_counts.get(n.id, 0) + 1
+    params = {a.arg for a in ast.walk(func) if isinstance(a, ast.arg)}
+
+    def is_test(e):
+        if not isinstance(e, (ast.Compare, ast.BoolOp)) and not (isinstance(e, ast.UnaryOp) and isinstance(e.op, ast.Not)):
+            return False
+        return not any(isinstance(n, (ast.Call, ast.NamedExpr, ast.Await, ast.Lambda, ast.Subscript)) for n in ast.walk(e))
+
+    changed = False
+
+    def rewrite(stmts):
+        nonlocal changed
+        stmts = list(stmts)
+        i = 0
+        while i < len(stmts):
+            st = stmts[i]
+            if isinstance(st, (ast.FunctionDef, ast.ClassDef)):
+                i += 1
+                continue
+            if isinstance(st, ast.Assign) and len(st.targets) == 1 and isinstance(st.targets[0], ast.Name) and store_counts.get(st.targets[0].id) == 1 and st.targets[0].id not in params and st.targets[0].id not in keep and is_test(st.value):
+                name = st.targets[0].id
+                rest = stmts[i + 1 :]
+                reads = {n.id for n in ast.walk(st.value) if isinstance(n, ast.Name)}
+                attr_roots = {norm(n) for n in ast.walk(st.value) if isinstance(n, ast.Attribute)}
+                rebound = any(isinstance(n, ast.Name) and isinstance(n.ctx, ast.Store) and n.id in reads for x in rest for n in ast.walk(x))
+                attr_store = any(isinstance(n, ast.Attribute) and isinstance(n.ctx, ast.Store) and norm(n) in attr_roots for x in rest for n in ast.walk(x))
+                loads_rest = sum(1 for x in rest for n in ast.walk(x) if isinstance(n, ast.Name) and n.id == name and isinstance(n.ctx, ast.Load))
+                loads_all = sum(1 for n in ast.walk(func) if isinstance(n, ast.Name) and n.id == name and isinstance(n.ctx, ast.Load))
+                if not rebound and not attr_store and loads_rest == loads_all and loads_all > 0:
+                    val = st.value
+
+                    class Sub(ast.NodeTransformer):
+                        def visit_Name(self, n, name=name, val=val):  # noqa: N802
+                            if n.id == name and isinstance(n.ctx, ast.Load):
+                                return ast.copy_location(_copy.deepcopy(val), n)
+                            return n
+
+                    stmts = stmts[:i] + [Sub().visit(x) for x in rest]
+                    changed = True
+                    continue
+            for fld in ("body", "orelse", "finalbody"):
+                if isinstance(getattr(st, fld, None), list):
+                    setattr(st, fld, rewrite(getattr(st, fld)))
+            if isinstance(st, ast.Try):
+                for h in st.handlers:
+                    h.body = rewrite(h.body)
+            i += 1
+        return stmts
+
+    new = _copy.deepcopy(func)
+    new.body = rewrite(new.body)
+    return ast.fix_missing_locations(new) if changed else func
+
+
+def dict_update_to_loop(func: ast.FunctionDef) -> ast.FunctionDef:
+    """``d.update({k: v for t in it [if c]})`` as a statement (one generator)  ->
+    ``for t in it: [if c:] d[k] = v`` - the same stores in the same order."""
+    import copy as _copy
+
+    changed = False
+
+    def rewrite(stmts):
+        nonlocal changed
+        out = []
+        for st in stmts:
+            if isinstance(st, (ast.FunctionDef, ast.ClassDef)):
+                out.append(st)
+                continue
+            for fld in ("body", "orelse", "finalbody"):
+                if isinstance(getattr(st, fld, None), list):
+                    setattr(st, fld, rewrite(getattr(st, fld)))
+            if isinstance(st, ast.Try):
+                for h in st.handlers:
+                    h.body = rewrite(h.body)
+            c = st.value if isinstance(st, ast.Expr) else None
+            if isinstance(c, ast.Call) and isinstance(c.func, ast.Attribute) and c.func.attr == "update" and isinstance(c.func.value, ast.Name) and len(c.args) == 1 and not c.keywords and isinstance(c.args[0], ast.DictComp) and len(c.args[0].generators) == 1 and not c.args[0].generators[0].is_async:
+                dc = c.args[0]
+                g = dc.generators[0]
+                store = ast.Assign(targets=[ast.Subscript(value=ast.Name(id=c.func.value.id, ctx=ast.Load()), slice=dc.key, ctx=ast.Store())], value=dc.value)
+                body = [store]
+                for cond in reversed(g.ifs):
+                    body = [ast.If(test=cond, body=body, orelse=[])]
+                tgt = _copy.deepcopy(g.target)
+                for n in ast.walk(tgt):
+                    if isinstance(n, (ast.Name, ast.Tuple, ast.List, ast.Starred)):
+                        n.ctx = ast.Store()
+                loop = ast.For(target=tgt, iter=g.iter, body=body, orelse=[])
+                for n in ast.walk(loop):
+                    ast.copy_location(n, st)
+                out.append(ast.fix_missing_locations(loop))
+                changed = True
+                continue
+            out.append(st)
+        return out
+
+    new = _copy.deepcopy(func)
+    new.body = rewrite(new.body)
+    return new if changed else func
+
+
+def _blocks(func):
+    """Every statement list of the function (not of nested functions / classes)."""
+    out = []
+
+    def visit(stmts):
+        out.append(stmts)
+        for st in stmts:
+            if isinstance(st, (ast.FunctionDef, ast.AsyncFunctionDef, ast.ClassDef)):
+                continue
+            for fld in ("body", "orelse", "finalbody"):
+                if isinstance(getattr(st, fld, None), list):
+                    visit(getattr(st, fld))
+            if isinstance(st, ast.Try):
+                for h in st.handlers:
+                    visit(h.body)
+
+    visit(func.body)
+    return out
+
+
+def _store_counts(func):
+    counts: dict[str, int] = {}
+    for n in ast.walk(func):
+        if isinstance(n, ast.Name) and isinstance(n.ctx, ast.Store):
+            counts[n.id] = counts.get(n.id, 0) + 1
+    return counts
+
+
+def expand_param_aliases(func: ast.FunctionDef, keep=frozenset()) -> ast.FunctionDef:
+    """A new local (not in ``keep``) bound once to a pure attribute chain rooted at a parameter that is
+    never re-bound (``pos = chain_state.pos``) is replaced by the chain when nothing in the function
+    stores to the chain or a prefix of it and no call between the binding and the last use receives
+    the root object (as receiver or argument) - the only ways the attribute could change in between."""
+    import copy as _copy
+
+    counts = _store_counts(func)
+    params = {a.arg for a in func.args.posonlyargs + func.args.args + func.args.kwonlyargs} - {"self", "cls"}
+    params = {p for p in params if counts.get(p, 0) == 0}
+    if not params:
+        return func
+
+    def root_of(e):
+        while isinstance(e, ast.Attribute):
+            e = e.value
+        return e.id if isinstance(e, ast.Name) else None
+
+    stored_attrs = {norm(n) for n in ast.walk(func) if isinstance(n, ast.Attribute) and isinstance(n.ctx, (ast.Store, ast.Del))}
+    stored_attrs |= {norm(n.value) for n in ast.walk(func) if isinstance(n, ast.Subscript) and isinstance(n.ctx, (ast.Store, ast.Del)) and isinstance(n.value, ast.Attribute)}
+    changed = False
+    new = _copy.deepcopy(func)
+    for block in _blocks(new):
+        i = 0
+        while i < len(block):
+            st = block[i]
+            ok = isinstance(st, ast.Assign) and len(st.targets) == 1 and isinstance(st.targets[0], ast.Name) and isinstance(st.value, ast.Attribute) and root_of(st.value) in params
+            if ok:
+                name, chain = st.targets[0].id, st.value
+                txt, root = norm(chain), root_of(chain)
+                ok = name not in keep and counts.get(name) == 1 and not any(txt == a or txt.startswith(a + ".") or a.startswith(txt + ".") for a in stored_attrs)
+            if ok:
+                rest = block[i + 1 :]
+                uses = [j for j, x in enumerate(rest) if any(isinstance(n, ast.Name) and n.id == name for n in ast.walk(x))]
+                all_loads = sum(1 for n in ast.walk(new) if isinstance(n, ast.Name) and n.id == name and isinstance(n.ctx, ast.Load))
+                in_rest = sum(1 for x in rest for n in ast.walk(x) if isinstance(n, ast.Name) and n.id == name and isinstance(n.ctx, ast.Load))
+                ok = bool(uses) and all_loads == in_rest
+                if ok:
+                    # calls handed the root object before the last use (through anything but the alias)
+                    for x in rest[: uses[-1]]:
+                        for c in ast.walk(x):
+                            if isinstance(c, ast.Call) and any(isinstance(n, ast.Name) and n.id == root for a in list(c.args) + [k.value for k in c.keywords] + [c.func] for n in ast.walk(a)):
+                                ok = False
+                    # a use inside a nested function runs later: not handled
+                    if any(isinstance(d, (ast.FunctionDef, ast.Lambda)) and any(isinstance(n, ast.Name) and n.id == name for n in ast.walk(d)) for x in rest for d in ast.walk(x)):
+                        ok = False
+            if ok:
+                class Sub(ast.NodeTransformer):
+                    def visit_Name(self, n, name=name, chain=chain):  # noqa: N802
+                        if n.id == name and isinstance(n.ctx, ast.Load):
+                            return ast.copy_location(_copy.deepcopy(chain), n)
+                        return n
+
+                block[i:] = [Sub().visit(x) for x in rest]
+                changed = True
+                continue
+            i += 1
+    return ast.fix_missing_locations(new) if changed else func
+
+
+def fold_new_loop_built(func: ast.FunctionDef, keep=frozenset()) -> ast.FunctionDef:
+    """``x = []`` / ``x = {}`` followed (in the same block) by the single loop that fills it, for a new
+    local ``x`` (not in ``keep``): replaced by ``x = <comprehension>`` (see loops_to_comprehensions)."""
+    import copy as _copy
+
+    changed = False
+    new = _copy.deepcopy(func)
+    for block in _blocks(new):
+        built = loops_to_comprehensions(block)
+        for name, comp in built.items():
+            if name in keep:
+                continue
+            idx = next(i for i, st in enumerate(block) if isinstance(st, ast.Assign) and len(st.targets) == 1 and isinstance(st.targets[0], ast.Name) and st.targets[0].id == name)
+            loops = [j for j in range(idx + 1, len(block)) if isinstance(block[j], ast.For) and any(isinstance(n, ast.Name) and n.id == name for n in ast.walk(block[j]))]
+            if len(loops) != 1:
+                continue
+            j = loops[0]
+            # nothing between the initialisation and the loop may read the collection or re-bind what the loop reads
+            between = block[idx + 1 : j]
+            reads = {n.id for n in ast.walk(block[j]) if isinstance(n, ast.Name) and isinstance(n.ctx, ast.Load)}
+            if any(isinstance(n, ast.Name) and (n.id == name or (isinstance(n.ctx, ast.Store) and n.id in reads)) for x in between for n in ast.walk(x)):
+                continue
+            # the loop variables must not be read afterwards (a comprehension does not leak them)
+            lv = {n.id for n in ast.walk(block[j].target) if isinstance(n, ast.Name)}
+            if any(isinstance(n, ast.Name) and n.id in lv and isinstance(n.ctx, ast.Load) for x in block[j + 1 :] for n in ast.walk(x)):
+                continue
+            block[idx] = ast.copy_location(ast.Assign(targets=[ast.Name(id=name, ctx=ast.Store())], value=comp), block[j])
+            moved = block.pop(idx)
+            block.insert(j - 1, moved)
+            del block[j]
+            changed = True
+    return ast.fix_missing_locations(new) if changed else func
+
+
+def inline_new_single_use_locals(func: ast.FunctionDef, keep=frozenset()) -> ast.FunctionDef:
+    """A new local (not in ``keep``) bound once and read exactly once, in the statement that directly
+    follows its binding, at a position that no other call of that statement is evaluated before, is
+    substituted there: ``t = f(a); return g(t)`` is ``return g(f(a))`` (same evaluation order)."""
+    import copy as _copy
+
+    changed = True
+    any_change = False
+    new = _copy.deepcopy(func)
+    params = {a.arg for a in ast.walk(new) if isinstance(a, ast.arg)}
+    guard = 0
+    while changed and guard < 50:
+        guard += 1
+        changed = False
+        counts = _store_counts(new)
+        loads: dict[str, int] = {}
+        for n in ast.walk(new):
+            if isinstance(n, ast.Name) and isinstance(n.ctx, ast.Load):
+                loads[n.id] = loads.get(n.id, 0) + 1
+        for block in _blocks(new):
+            for i in range(len(block) - 1):
+                st, nxt = block[i], block[i + 1]
+                if not (isinstance(st, ast.Assign) and len(st.targets) == 1 and isinstance(st.targets[0], ast.Name)):
+                    continue
+                name = st.targets[0].id
+                if name in keep or name in params or counts.get(name) != 1 or loads.get(name) != 1:
+                    continue
+                if isinstance(st.value, (ast.Yield, ast.YieldFrom, ast.Await, ast.NamedExpr)):
+                    continue
+                # where in the next statement is it read?  only the parts evaluated once, first
+                if isinstance(nxt, (ast.For, ast.While, ast.If, ast.With, ast.Try, ast.FunctionDef, ast.ClassDef, ast.Match)):
+                    head = nxt.iter if isinstance(nxt, ast.For) else nxt.test if isinstance(nxt, ast.If) else None
+                    if head is None:
+                        continue
+                    scope = head
+                else:
+                    scope = nxt
+                order = []
+                parents = {}
+
+                def visit(n, order=order, parents=parents):
+                    order.append(n)
+                    for ch in ast.iter_child_nodes(n):
+                        parents[id(ch)] = n
+                        visit(ch)
+
+                visit(scope)
+                use = next((n for n in order if isinstance(n, ast.Name) and n.id == name and isinstance(n.ctx, ast.Load)), None)
+                if use is None:
+                    continue
+                anc = set()
+                cur = use
+                while id(cur) in parents:
+                    cur = parents[id(cur)]
+                    anc.add(id(cur))
+                # not inside a lambda / comprehension element (evaluated later or repeatedly); an IfExp / BoolOp arm is conditional
+                bad = False
+                cur = use
+                while id(cur) in parents:
+                    par = parents[id(cur)]
+                    if isinstance(par, (ast.Lambda, ast.GeneratorExp)):
+                        bad = True
+                    if isinstance(par, (ast.ListComp, ast.SetComp, ast.DictComp)) and cur is not par.generators[0].iter and not (isinstance(cur, ast.comprehension) and cur is par.generators[0]):
+                        bad = True
+                    if isinstance(par, ast.comprehension) and cur is not par.iter:
+                        bad = True
+                    if isinstance(par, ast.IfExp) and cur is not par.test:
+                        bad = True
+                    if isinstance(par, ast.BoolOp) and cur is not par.values[0]:
+                        bad = True
+                    cur = par
+                if bad:
+                    continue
+                before = order[: order.index(use)]
+                if any(isinstance(n, (ast.Call, ast.Await, ast.NamedExpr, ast.Subscript, ast.Attribute)) and id(n) not in anc for n in before):
+                    # something else is evaluated first: only a side-effect-free binding may move past it
+                    if any(isinstance(n, (ast.Call, ast.Await, ast.NamedExpr)) for n in ast.walk(st.value)) and any(isinstance(n, (ast.Call, ast.Await, ast.NamedExpr)) and id(n) not in anc for n in before):
+                        continue
+                val = st.value
+
+                class Sub(ast.NodeTransformer):
+                    def visit_Name(self, n, use=use, val=val):  # noqa: N802
+                        if n is use:
+                            return ast.copy_location(_copy.deepcopy(val), n)
+                        return n
+
+                if scope is nxt:
+                    block[i + 1] = Sub().visit(nxt)
+                elif isinstance(nxt, ast.For):
+                    nxt.iter = Sub().visit(nxt.iter)
+                else:
+                    nxt.test = Sub().visit(nxt.test)
+                del block[i]
+                changed = any_change = True
+                break
+            if changed:
+                break
+    return ast.fix_missing_locations(new) if any_change else func
+
+
+def guard_continue_to_else(func: ast.FunctionDef) -> ast.FunctionDef:
+    """In a loop body, ``if c: A; continue`` followed by ``B`` is ``if c: A else: B``."""
+    import copy as _copy
+
+    changed = False
+    new = _copy.deepcopy(func)
+
+    def fix(body):
+        nonlocal changed
+        for k, st in enumerate(body):
+            if isinstance(st, ast.If) and not st.orelse and st.body and isinstance(st.body[-1], ast.Continue) and k + 1 < len(body) and not any(isinstance(n, ast.Continue) for x in st.body[:-1] for n in ast.walk(x)):
+                rest = body[k + 1 :]
+                st.body = st.body[:-1] or [ast.copy_location(ast.Pass(), st)]
+                st.orelse = fix(rest)
+                changed = True
+                return body[: k + 1]
+        return body
+
+    for n in ast.walk(new):
+        if isinstance(n, (ast.For, ast.While)):
+            n.body = fix(n.body)
+    return ast.fix_missing_locations(new) if changed else func
+
+
+def hoist_leading_walrus(func: ast.FunctionDef) -> ast.FunctionDef:
+    """``if (a := e) <op> ...:``  ->  ``a = e`` ; ``if a <op> ...:`` when the assignment expression is the
+    first operand evaluated by the test (leftmost operand of comparisons / boolean operators /
+    unary not, recursively), so that the binding is unconditional either way."""
+    import copy as _copy
+
+    changed = False
+
+    def leading(e):
+        """-> (NamedExpr node, setter replacing it by a Name) or None"""
+        if isinstance(e, ast.NamedExpr) and isinstance(e.target, ast.Name):
+            return e
+        if isinstance(e, ast.Compare):
+            return leading(e.left)
+        if isinstance(e, ast.BoolOp):
+            return leading(e.values[0])
+        if isinstance(e, ast.UnaryOp):
+            return leading(e.operand)
+        if isinstance(e, ast.BinOp):
+            return leading(e.left)
+        return None
+
+    def rewrite(stmts):
+        nonlocal changed
+        out = []
+        for st in stmts:
+            if isinstance(st, (ast.FunctionDef, ast.ClassDef)):
+                out.append(st)
+                continue
+            for fld in ("body", "orelse", "finalbody"):
+                if isinstance(getattr(st, fld, None), list):
+                    setattr(st, fld, rewrite(getattr(st, fld)))
+            if isinstance(st, ast.Try):
+                for h in st.handlers:
+                    h.body = rewrite(h.body)
+            if isinstance(st, ast.If):
+                w = leading(st.test)
+                if w is not None:
+                    asg = ast.copy_location(ast.Assign(targets=[ast.Name(id=w.target.id, ctx=ast.Store())], value=w.value), st)
+
+                    class Sub(ast.NodeTransformer):
+                        def visit_NamedExpr(self, n, w=w):  # noqa: N802
+                            if n is w:
+                                return ast.copy_location(ast.Name(id=w.target.id, ctx=ast.Load()), n)
+                            return self.generic_visit(n)
+
+                    st.test = Sub().visit(st.test)
+                    out.append(ast.fix_missing_locations(asg))
+                    changed = True
+            out.append(st)
+        return out
+
+    new = _copy.deepcopy(func)
+    new.body = rewrite(new.body)
+    return ast.fix_missing_locations(new) if changed else func
+
+
 def loops_to_comprehensions(stmts: list) -> dict:
     """Dict / list locals built by the idiom  ``x = {}`` ; ``for t in it: [if c:] x[k] = v``  (or
     ``x = []`` ... ``x.append(v)``) at the top level of ``stmts``  ->  {name: equivalent comprehension}."""
@@ -820,6 +1512,8 @@ class Program:
         self.modules: dict[str, ModuleInfo] = {}
         self.classes: dict[str, ClassInfo] = {}
         self.n_functions = 0
+        self.inlined_helpers: list[str] = []
+        self.absorbed: set[str] = set()
         if sources is not None:
             for modname, source in sources.items():
                 mod = ModuleInfo(modname, Path(f"<embedded:{modname}>"), ast.parse(source), source)
@@ -833,6 +1527,38 @@ class Program:
         self._link()
         if sources is None:
             self._inline_new_helpers()
+            import json as _json
+
+            try:
+                pinned_locals = _json.loads((Path(__file__).with_name("pinned_helpers.json")).read_text()).get("locals", {})
+            except OSError:
+                pinned_locals = {}
+            # module-level constant tuples of exception classes used as `except NAME:`
+            const_tuples: dict = {}
+            for m in self.modules.values():
+                counts: dict = {}
+                for st in m.tree.body:
+                    if isinstance(st, ast.Assign):
+                        for t in st.targets:
+                            if isinstance(t, ast.Name):
+                                counts[t.id] = counts.get(t.id, 0) + 1
+                for st in m.tree.body:
+                    if isinstance(st, ast.Assign) and len(st.targets) == 1 and isinstance(st.targets[0], ast.Name) and counts[st.targets[0].id] == 1 and isinstance(st.value, ast.Tuple) and st.value.elts and all(isinstance(e, (ast.Name, ast.Attribute)) for e in st.value.elts):
+                        const_tuples.setdefault(m.name, {})[st.targets[0].id] = st.value
+            for m in self.modules.values():
+                targets = list(m.functions.values())
+                for c in m.classes.values():
+                    targets += list(c.methods.values()) + list(c.setters.values())
+                for f in targets:
+                    keep_l = frozenset(pinned_locals.get(m.name, {}).get(f.qualname, ()))
+                    f.node = expand_param_aliases(f.node, keep=keep_l)
+                    f.node = fold_new_loop_built(f.node, keep=keep_l)
+                    f.node = expand_named_conditions(f.node, keep=keep_l)
+                    f.node = inline_new_single_use_locals(f.node, keep=keep_l)
+                    f.node = guard_continue_to_else(f.node)
+                    f.node = dict_update_to_loop(f.node)
+                    f.node = hoist_leading_walrus(desugar_reduce(unroll_method_tuple_loops(expand_self_aliases(f.node))))
+                    f.node = _subst_exception_tuples(f.node, const_tuples.get(m.name, {}))
 
     # ------------------------------------------------------------------
     def _inline_new_helpers(self) -> None:
@@ -848,7 +1574,6 @@ class Program:
             pinned = _json.loads((Path(__file__).with_name("pinned_helpers.json")).read_text())
         except OSError:
             return
-        self.inlined_helpers: list[str] = []
         for m in self.modules.values():
             known = set(pinned.get(m.name, []))
             fresh = set()
@@ -859,17 +1584,69 @@ class Program:
                 for f in list(c.methods.values()) + list(c.setters.values()):
                     if f.name.startswith("_") and not f.name.startswith("__") and f.name not in known:
                         fresh.add(f.name)
-            if not fresh:
-                continue
-            self.inlined_helpers += sorted(f"{m.name}.{n}" for n in fresh)
             targets = list(m.functions.values())
             for c in m.classes.values():
                 targets += list(c.methods.values()) + list(c.setters.values())
+            # nested functions that the pinned tree does not have (an extracted inner step, a closure
+            # replacing a repeated expression) are inlined where they are called directly
+            known_nested = set(pinned.get("nested", {}).get(m.name, []))
+            fresh_closures: dict = {}
             for f in targets:
+                names = set()
+                for n in ast.walk(f.node):
+                    if isinstance(n, ast.FunctionDef) and n is not f.node and f"{f.qualname}.{n.name}" not in known_nested:
+                        names.add(n.name)
+                if names:
+                    fresh_closures[f.qualname] = frozenset(names)
+            if not fresh and not fresh_closures:
+                continue
+            self.inlined_helpers += sorted(f"{m.name}.{n}" for n in fresh) + sorted(f"{m.name}.{q}.{n}" for q, ns in fresh_closures.items() for n in ns)
+            for f in targets:
+                if not fresh and f.qualname not in fresh_closures:
+                    continue
                 try:
-                    f.node = inline_private_helpers(f, methods=True, only=frozenset(fresh))
+                    f.node = inline_private_helpers(f, methods=True, only=frozenset(fresh), closures=fresh_closures.get(f.qualname, frozenset()))
                 except RecursionError:  # pragma: no cover
                     pass
+            # a new helper that is no longer referenced anywhere after inlining has been absorbed into its
+            # callers: its statements are analysed there, and the stand-alone definition is dropped from the
+            # model (it is private and unreachable) so that who-may-write rules do not see the same code twice
+            refs: dict[str, int] = dict.fromkeys(fresh, 0)
+            for f in targets:
+                for n in ast.walk(f.node):
+                    if n is f.node:
+                        continue
+                    nm = n.id if isinstance(n, ast.Name) else n.attr if isinstance(n, ast.Attribute) else None
+                    if nm in refs and not (f.name == nm):
+                        refs[nm] += 1
+            for st in m.tree.body:
+                if isinstance(st, (ast.FunctionDef, ast.ClassDef)):
+                    continue
+                for n in ast.walk(st):
+                    nm = n.id if isinstance(n, ast.Name) else n.attr if isinstance(n, ast.Attribute) else None
+                    if nm in refs:
+                        refs[nm] += 1
+            for other in self.modules.values():
+                if other is m:
+                    continue
+                for n in ast.walk(other.tree):
+                    nm = n.attr if isinstance(n, ast.Attribute) else n.id if isinstance(n, ast.Name) else None
+                    if nm in refs:
+                        refs[nm] += 1
+                    if isinstance(n, ast.ImportFrom):
+                        for a in n.names:
+                            if a.name in refs:
+                                refs[a.name] += 1
+            for nm, cnt in refs.items():
+                if cnt:
+                    continue
+                if nm in m.functions:
+                    del m.functions[nm]
+                    self.absorbed.add(f"{m.name}.{nm}")
+                for c in m.classes.values():
+                    if nm in c.methods:
+                        del c.methods[nm]
+                        self.absorbed.add(f"{m.name}.{c.name}.{nm}")
 
     def _load(self) -> None:
         for path in sorted(self.src.rglob("*.py")):
